@@ -133,6 +133,26 @@ pub trait IntResMixed {
     fn irm_plain_pair(&self, code: i32) -> Result<Pair, MyErr>;
 }
 
+/// A skipped method between two exported ones: the slots around it must stay right.
+#[cglue_trait]
+pub trait Attrs {
+    fn at_first(&self, v: u64) -> u64;
+    #[skip_func]
+    fn at_skipped(&self) -> u64 {
+        77
+    }
+    fn at_last(&mut self, v: u64) -> u64;
+    extern "C" fn at_c(&self) -> u32;
+}
+
+/// Lifetime- and type-parameterised trait.
+#[cglue_trait]
+pub trait Life<'a, T: Eq + 'a> {
+    fn l_get(&self) -> &T;
+    fn l_eq(&self, v: &T) -> bool;
+    fn l_set(&mut self, v: T) -> T;
+}
+
 /// By-value receivers.
 #[cglue_trait]
 pub trait Consume {
@@ -492,6 +512,38 @@ macro_rules! implementor {
             fn ir_plain(&mut self, code: i32) -> Result<u64, i32> {
                 self.core.enter("ir_plain", code as u64, &[]);
                 if code != 0 { Err(code) } else { Ok(self.core.mix(16)) }
+            }
+        }
+
+        impl Attrs for $name {
+            fn at_first(&self, v: u64) -> u64 {
+                self.core.enter("at_first", v, &[]);
+                self.core.mix(v ^ 0xA1)
+            }
+            fn at_last(&mut self, v: u64) -> u64 {
+                self.core.enter("at_last", v, &[]);
+                self.core.mix(v ^ 0xA3)
+            }
+            extern "C" fn at_c(&self) -> u32 {
+                self.core.enter("at_c", 0, &[]);
+                self.core.get() as u32 ^ 0xA4
+            }
+        }
+        impl<'a> Life<'a, u64> for $name {
+            fn l_get(&self) -> &u64 {
+                self.core.enter("l_get", 0, &[(&self.core.cell as *const u64 as usize, 1)]);
+                &self.core.cell
+            }
+            fn l_eq(&self, v: &u64) -> bool {
+                self.core.enter("l_eq", *v, &[(v as *const u64 as usize, 1)]);
+                self.core.mix(*v) % 2 == 0
+            }
+            fn l_set(&mut self, v: u64) -> u64 {
+                self.core.enter("l_set", v, &[]);
+                let old = self.core.cell;
+                self.core.cell = v;
+                self.core.mix(v);
+                old
             }
         }
 
